@@ -1094,6 +1094,17 @@ func (tr *FnCtx) alloc(st *State, x *ssa.Alloc) {
 	}
 	z := tr.zeroVal(et)
 	tr.storeTo(st, v, z)
+	if stru, ok := structOf(et); ok && tr.W.isOpaqueNamed(et) {
+		// struct of another module: as a value it is opaque, but its fields are components when reached
+		// through a pointer; a fresh object has all of them zero
+		for i := 0; i < stru.NumFields(); i++ {
+			f := stru.Field(i)
+			atoms := tr.W.flatten(f.Type())
+			for j, c := range tr.W.fieldComps(et, f.Name(), f.Type()) {
+				tr.set(st, c, store(tr.cur(st, c), addr, zeroOf(atoms[j].Sort)))
+			}
+		}
+	}
 }
 
 func (tr *FnCtx) fieldAddr(st *State, x *ssa.FieldAddr) *Val {
